@@ -246,12 +246,12 @@ func (res *Response) writeChunk(conn net.Conn, data []byte, l int) (int, error) 
 		pbuf = mempool.AppendString(pbuf, lenStr)
 		pbuf = mempool.AppendString(pbuf, "\r\n")
 		_, err = conn.Write(*pbuf)
-		mempool.Free(pbuf)
 		if err != nil {
+			mempool.Free(pbuf)
 			return 0, err
 		}
 
-		// Reset the cache buffer.
+		// Reset the cache buffer (it is reused below, so it must not be freed here).
 		*pbuf = (*pbuf)[0:0]
 	} else {
 		// 2. Append length string to the new buffer.
